@@ -91,7 +91,11 @@ def step (cfg : Cfg) (authOn : Bool) (s : St) : Call → St
                bad := s.bad ++
                  (if ClientMon.crOk s.body && d.rdEnd == .eof && d.octets != ClientMon.normBody s.body
                   then ["C16 the backend did not receive the normalised message"] else []) ++
-                 (if cfg.lmtp then [] else verdict "data" d.ret res) }
+                 -- (LMTP with per-recipient statuses: the verdict is a vector, judged by C13/C18)
+                 (if cfg.lmtp && cfg.lmtpSess then [] else
+                    verdict "data" d.ret res ++
+                    (if d.ret != .panic && (d.ret == .ok) != (res == "nil")
+                     then ["C16 Close does not return the server's verdict for that message"] else [])) }
     | [] => { s with closed := true, bad := s.bad ++ ["C16 a closed message did not reach the backend"] }
   | .reset _ => { s with tx := false }
   | .other => s
